@@ -810,6 +810,12 @@ func getSort(typ reflect.Type) func([]sortReference, SortOrder) {
 	}
 }
 
+// floatLess orders NaN before every number (as sort.Float64s does), so that the
+// comparison stays a strict weak order and the other values end up sorted.
+func floatLess(a, b float64) bool {
+	return a < b || (a != a && b == b)
+}
+
 var sorts = map[reflect.Kind]func([]sortReference, SortOrder){
 	reflect.Int64: func(slice []sortReference, order SortOrder) {
 		sort.SliceStable(slice, func(i, j int) bool {
@@ -838,9 +844,9 @@ var sorts = map[reflect.Kind]func([]sortReference, SortOrder){
 			a := slice[i].value
 			b := slice[j].value
 			if order == SortOrder_Ascending {
-				return a.Float() < b.Float()
+				return floatLess(a.Float(), b.Float())
 			} else {
-				return a.Float() > b.Float()
+				return floatLess(b.Float(), a.Float())
 			}
 		})
 	},
